@@ -131,7 +131,7 @@ def gen_case(rng, tier, i):
     if i < 43:
         return {"fam": "wrap", "k": i}
     c = CLASSES[i % len(CLASSES)]
-    return {"fam": "cell", "cls": c, "args": GEN[c](rng), "seed": rng.randint(1, 10 ** 9)}
+    return {"fam": "cell", "cls": c, "args": GEN[c](rng), "seed": rng.choice([rng.randint(1, 10 ** 9)] * 9 + [0, -rng.randint(1, 10 ** 6)])}   # 0 and negative seeds are seeds
 
 
 # ------------------------------------------------------------------------------------------- oracle
